@@ -33,6 +33,7 @@ type Env struct {
 	Queue   []*wire.MsgBlock // tip notifications announced but not yet processed
 	Wrap    func(mwdb.DB) mwdb.DB
 	worker  bool
+	stopErr error
 }
 
 // DefaultPubPass is the public passphrase new instances are created with.
@@ -131,10 +132,21 @@ func (e *Env) ServeWorker(wait time.Duration) (bool, error) {
 	return true, err
 }
 
-// StopWallet stops the worker and closes the database (a clean shutdown of the instance).
+// StopWallet stops the worker and closes the database (a clean shutdown of the instance). If the
+// worker cannot be stopped (e.g. a panic left the database write lock held) the instance is
+// abandoned after a bounded wait instead of hanging the test process.
 func (e *Env) StopWallet() error {
+	o := guard.Call(15*time.Second, func() { e.stopErr = e.stopWallet() })
+	if o.Kind != "done" {
+		e.worker = false
+		return fmt.Errorf("instance could not be stopped (%s); abandoned", o.Kind)
+	}
+	return e.stopErr
+}
+
+func (e *Env) stopWallet() error {
 	if e.worker {
-		if !e.H.VerifStopWorker(5 * time.Second) {
+		if !e.H.VerifStopWorker(3 * time.Second) {
 			// the worker may be blocked in the suspend hand-shake; serve it until it can leave
 			for i := 0; i < 1000; i++ {
 				if !e.H.VerifServeSuspend(50 * time.Millisecond) {
